@@ -7,13 +7,33 @@ C/S: the property itself on the real runtimes: DspRuntime::try_hot_swap(VmProgra
    try_hot_swap(WasmModule{prepared engine, prewarmed state, patch plan}) on WasmDspRuntime, with a FRESH compilation of the same
    source, at split points n in {0,1,2,3,5,8,...} (incl. inside a delay line's first wrap), k consecutive swaps.
 """
-import json, os
+import json, os, re
 from vplib import *
 import lmmm
 from lmmm import *
 
 OCAML = lmmm.OCAML
 HARNESS = lmmm.HARNESS
+
+
+def global_reads_samplerate(src):
+    """class predicate of finding S2: `samplerate` occurs in a top-level statement (outside every function body), i.e. the global
+    initialiser reads it"""
+    out, depth, i = [], 0, 0
+    txt = re.sub(r"//[^\n]*", "", src)
+    # drop the bodies of `fn name(..){ .. }` definitions
+    res = ""
+    k = 0
+    for m in re.finditer(r"\bfn\s+\w+\s*\([^)]*\)[^{]*\{", txt):
+        if m.start() < k:
+            continue
+        res += txt[k:m.start()]
+        d, j = 1, m.end()
+        while j < len(txt) and d:
+            d += {"{": 1, "}": -1}.get(txt[j], 0); j += 1
+        k = j
+    res += txt[k:]
+    return "samplerate" in res
 
 
 def gen_special_sources(rng, n):
@@ -84,8 +104,27 @@ def run(ck):
     # ---- state cells holding NON-FINITE or otherwise special values at the split point (Inf, -Inf, NaN, -0.0, huge, subnormal):
     # the copy of the state must be faithful whatever the words contain (response to seeded change C06b) ----
     special = gen_special_sources(ck.rng.fork("special"), 40 if quick else 400)
+    # ---- programs that read `samplerate` (in dsp, and in the global initialiser) on a device whose rate is NOT the runtimes' default:
+    # the swapped-in program must keep running at the device's rate (response to seeded change C06d) ----
+    special_sr = {}
+    srng = ck.rng.fork("samplerate")
+    for _ in range(24 if quick else 240):
+        f = srng.choice([441, 100, 1000, 3])
+        shape = srng.below(4)
+        if shape == 0:
+            src = "fn phasor(freq){\n  (self + freq / samplerate) %% 1.0\n}\nfn dsp(){\n  phasor(%d.0)\n}\n" % f
+        elif shape == 1:
+            src = "fn dsp(){\n  let inc = %d.0 / samplerate\n  (self + inc, samplerate)\n}\n" % f
+        elif shape == 2:
+            src = "let step = %d.0 / samplerate\nfn acc(){\n  self + step\n}\nfn dsp(){\n  (acc(), step * 1000000.0)\n}\n" % f
+        else:
+            src = "fn lp(x){\n  let a = 1.0 / (1.0 + samplerate / %d.0)\n  self + a * (x - self)\n}\nfn dsp(){\n  lp(1.0) + mem(samplerate)\n}\n" % f
+        special_sr[len(special)] = srng.choice([44100, 96000, 22050, 48000, 44100])
+        special.append(src)
     for si, src in enumerate(special):
         base = {"src": src, "n": 20, "state": False}
+        if si in special_sr:
+            base["sr"] = special_sr[si]
         reqs.append(dict(base)); meta.append((("special", si), None))
         for variant in range(2):
             k = rng.range(1, 3)
@@ -128,7 +167,11 @@ def run(ck):
                     if ox != oy:
                         t = next(i for i in range(max(len(ox), len(oy))) if i >= len(ox) or i >= len(oy) or ox[i] != oy[i])
                         bad = "sample %d after swaps at %s: uninterrupted %s, swapped %s" % (t, pts, ox[t] if t < len(ox) else None, oy[t] if t < len(oy) else None)
-            if bad:
+            if bad and be == "wasm" and isinstance(ci, tuple) and ci[1] in special_sr and special_sr[ci[1]] != 44100 \
+                    and global_reads_samplerate(special[ci[1]]) and "S2" in findings:
+                bump("wasm_global_initialiser_at_default_rate_S2")
+                ck.known(findings["S2"], "device rate %d: %s" % (special_sr[ci[1]], special[ci[1]].replace("\n", " ")[:100]))
+            elif bad:
                 viol.append(("%s: %s" % (be, bad), ci, pts, {}))
             else:
                 bump(be + "_swaps_inaudible")
@@ -144,7 +187,7 @@ def run(ck):
         ck.sample({"source": reqs[i]["src"], "swap_points": meta[i][1], "n": reqs[i]["n"]})
     for what, ci, pts, det in viol[:5]:
         if isinstance(ci, tuple):
-            ck.violation(what + " (state cells holding non-finite / special values)", {"source": special[ci[1]], "swap_at_samples": pts, "n_samples": 20, **det,
+            ck.violation(what + (" (program reading samplerate on a device running at %d Hz)" % special_sr[ci[1]] if ci[1] in special_sr else " (state cells holding non-finite / special values)"), {"source": special[ci[1]], "swap_at_samples": pts, "n_samples": 20, **({"device_sample_rate": special_sr[ci[1]]} if ci[1] in special_sr else {}), **det,
                                 "how": "lmmm_run request with \"swaps\":[{\"at\":t,\"src\":<same source>}]"})
             continue
         p, rows = cases[ci]
